@@ -8,7 +8,7 @@ stays within `len` of the initial one, so under the property's own side conditio
 ("n ± len does not overflow i64") the `Int` model is exact.
 The language-level forms (`[..] < n`, `[..] > n`, constants) are in `Thm/C01`/`Thm/C05L`.
 -/
-import Rsbdd.Proofs.ModelRetain
+import Rsbdd.Proofs.SemSound
 
 namespace Rsbdd.C05
 open BDD
@@ -84,6 +84,23 @@ theorem cmpCountCompare_range (as bs : List BDD) (n : Int) :
     · subst h; simp; omega
     · have := ih (n + 1) m h; simp; omega
     · have := ih n m h; simp; omega
+
+/-- the language forms `[..] <= k`, `< k`, `>= k`, `> k`, `= k`: for every constant `k : Nat`
+the syntax accepts (no bound: the evaluator clamps to `len + 1` before converting to i64)
+the diagram is true exactly when the count compares as written; `<` and `>` are strict -/
+theorem cntConst_spec (op : CntOp) (bs : List BDD) (k : Nat) (σ : Asg) :
+    eval (Formula.cntConstApply op bs k) σ = true ↔ op.sem (count bs σ) k :=
+  eval_cntConstApply op bs k σ
+
+/-- the list-versus-list language forms compare the two counts -/
+theorem cntVar_spec (op : CntOp) (l r : List BDD) (σ : Asg) :
+    eval (Formula.cntVarApply op l r) σ = true ↔ op.sem (count l σ) (count r σ) :=
+  eval_cntVarApply op l r σ
+
+/-- after the clamp, every value the evaluator converts to i64 or adds/subtracts 1 to lies in
+`[0, len + 1]`, and with `cmpCount_range` every bound lies in `[-len - 1 .. len + 2]` -/
+theorem cntConst_clamped (bs : List BDD) (k : Nat) : min k (bs.length + 1) ≤ bs.length + 1 :=
+  Nat.min_le_right _ _
 
 -- non-vacuity: repeated operand, bound larger than the list, negative bound
 example : aln [var 0, var 0, var 1] 2 = var 0 := by
